@@ -95,14 +95,15 @@ def enc_string(b):
   return struct.pack('!h', len(b)) + b
 
 
-def encode_metadata(corr, brokers, topics):
-  """brokers: [(id, host bytes, port)], topics: {name: [(err, pid, leader, replicas, isr)]}"""
+def encode_metadata(corr, brokers, topics, topic_errors=None):
+  """brokers: [(id, host bytes, port)], topics: {name: [(err, pid, leader, replicas, isr)]},
+  topic_errors: {name: topic-level error code} (default 0)"""
   out = struct.pack('!i', corr) + struct.pack('!i', len(brokers))
   for nid, host, port in brokers:
     out += struct.pack('!i', nid) + enc_string(host) + struct.pack('!i', port)
   out += struct.pack('!i', len(topics))
   for name, parts in topics.items():
-    out += struct.pack('!h', 0) + enc_string(name) + struct.pack('!i', len(parts))
+    out += struct.pack('!h', (topic_errors or {}).get(name, 0)) + enc_string(name) + struct.pack('!i', len(parts))
     for err, pid, leader, replicas, isr in parts:
       out += struct.pack('!hii', err, pid, leader)
       out += struct.pack('!i', len(replicas)) + b''.join(struct.pack('!i', r) for r in replicas)
